@@ -38,7 +38,7 @@ def msg(msgtype, seq, sender, target, body=(), sending_time="20240101-00:00:00.0
     return build(f)
 
 
-def parse(frame: bytes, beginstring=b"FIX.4.4", allow_empty=True):
+def parse(frame: bytes, beginstring=b"FIX.4.4", allow_empty=True, strict_tags=True):
     """Strict parse of exactly one frame -> list[(tag:str, value:str(latin-1))].  Raises FrameError."""
     if not isinstance(frame, (bytes, bytearray)):
         raise FrameError("not bytes")
@@ -53,8 +53,9 @@ def parse(frame: bytes, beginstring=b"FIX.4.4", allow_empty=True):
         if b"=" not in p:
             raise FrameError(f"field without '=': {p[:20]!r}")
         t, v = p.split(b"=", 1)
-        if not t.isdigit() or not t.isascii() or t.startswith(b"0"):
+        if strict_tags and (not t.isdigit() or not t.isascii() or t.startswith(b"0")):
             raise FrameError(f"bad tag {t[:12]!r}")
+        t = t.strip() if not strict_tags else t
         if v == b"" and not allow_empty:
             raise FrameError(f"empty value for tag {t!r}")
         fields.append((t, v))
